@@ -14,20 +14,34 @@ from ..engines.typecase import TypeCase, events_matching
 CLOCK_PREFIXES = ("BAR", "REST", "TIME_SIGNATURE")
 
 
-def clock_summaries(ctx: Ctx, q: str):
+def clock_summaries(ctx: Ctx, q: str, fallback: dict | None = None):
     """prefix -> (core effect dict, guarded?, skip-noop?) for the three clock-relevant prefixes; others -> effect."""
     p = ctx.p
     fi = p.func(q)
     chain = T.dispatch_chain(fi.node)
     out = {}
+    bodies = {m: body for m, _, body in chain if m is not None}
+    roles = None
+    if "REST" in bodies and "BAR" in bodies:
+        from ..linear import Sym
+        roles = T.roles_from_effects(T.branch_effect(bodies["REST"], p.settings), T.branch_effect(bodies["BAR"], p.settings), Sym.atom("FIELD(1)"))
+    if roles is None:
+        # the REST/BAR handling does not have the canonical shape: fall back to the sibling's variable names so that the
+        # comparison below reports the deviation; if those names do not exist here either, the function is outside the model
+        fb = fallback or {r: r for r in T.ROLE_NAMES}
+        names = {n.id for n in ast.walk(fi.node) if isinstance(n, ast.Name)}
+        if not all(a in names for a in fb.values()):
+            raise AnalysisError(f"{q}: the four clock variables could not be identified from the REST/BAR branches")
+        roles = dict(fb)
+    ctx.extra.setdefault("clock_roles", {})[q.split(".")[-1]] = roles
     for m, test, body in chain:
         key = m if m is not None else "<else>"
         if m == "TIME_SIGNATURE":
-            guarded, noop, stmts, gnode = T.ts_guard_split(body)
-            eff = T.core_effect(T.branch_effect(stmts, p.settings))
+            guarded, noop, stmts, gnode = T.ts_guard_split(body, roles["cur_time_bar"])
+            eff = T.core_effect(T.branch_effect(stmts, p.settings), roles)
             out[key] = (eff, guarded, noop)
         else:
-            eff = T.core_effect(T.branch_effect(body, p.settings))
+            eff = T.core_effect(T.branch_effect(body, p.settings), roles)
             out[key] = (eff, None, None)
     return fi, chain, out
 
@@ -47,8 +61,12 @@ def check(ctx: Ctx) -> None:
         "value annotated; TPL6 no vocabulary token combines two clock-relevant parts (so dispatching on the first part suffices). "
         "Not decided: monotonicity / in-bar time of tokenise-produced streams as numeric facts.")
     ctx.assumptions += ["tokens are vocabulary members (C02)", "DEFAULT_TIME_SIGNATURE numerator and denominator are the configured integers"]
-    fd, chain_d, sum_d = clock_summaries(ctx, f"{TOK}.detokenise")
-    fg, chain_g, sum_g = clock_summaries(ctx, f"{TOK}.get_info")
+    try:
+        fd, chain_d, sum_d = clock_summaries(ctx, f"{TOK}.detokenise")
+        fg, chain_g, sum_g = clock_summaries(ctx, f"{TOK}.get_info", fallback=ctx.extra["clock_roles"]["detokenise"])
+    except AnalysisError:
+        fg, chain_g, sum_g = clock_summaries(ctx, f"{TOK}.get_info")
+        fd, chain_d, sum_d = clock_summaries(ctx, f"{TOK}.detokenise", fallback=ctx.extra["clock_roles"]["get_info"])
     ctx.analysed(fd)
     ctx.analysed(fg)
     ctx.floor("detokenise dispatch branches", len(chain_d), 10)
@@ -107,9 +125,12 @@ def check(ctx: Ctx) -> None:
                 break
             if isinstance(s, ast.Assign) and isinstance(s.targets[0], ast.Name):
                 nz.assign(s.targets[0], s.value)
-        for v in T.CLOCK + ("cur_time_signature_numerator", "cur_time_signature_denominator"):
-            if v in nz.env:
-                out[v] = T.rename_sig(nz.env[v].canon()) if "capacity" in v else nz.env[v].canon()
+        roles = ctx.extra["clock_roles"][f.name]
+        sub = {a: Sym.atom(r) for r, a in roles.items()}
+        for r, a in roles.items():
+            if a in nz.env:
+                c = nz.env[a].subst(sub).canon()
+                out[r] = T.rename_sig(c) if "capacity" in r else c
         return out
     id_, ig = inits(fd), inits(fg)
     ctx.check(id_ == ig and len(id_) >= 4, "INIT", f"both clocks start at {id_}", function=fg.qualname,
@@ -155,7 +176,8 @@ def check(ctx: Ctx) -> None:
         if isinstance(s, ast.Expr) and isinstance(s.value, ast.Call) and call_method(s.value)[1] == "append" and isinstance(call_method(s.value)[0], ast.Name):
             recorded[call_method(s.value)[0].id] = (s, src(s.value.args[0]) if s.value.args else "")
     keys = {k.value: v.id for k, v in zip(ret.value.keys, ret.value.values) if isinstance(k, ast.Constant) and isinstance(v, ast.Name)}
-    for key, var in (("info_position", pv), ("info_time", "cur_time"), ("info_time_bar", "cur_time_bar")):
+    groles = ctx.extra["clock_roles"]["get_info"]
+    for key, var in (("info_position", pv), ("info_time", groles["cur_time"]), ("info_time_bar", groles["cur_time_bar"])):
         L = keys.get(key)
         rec = recorded.get(L)
         ok = rec is not None and rec[1] == var and first_if is not None and rec[0].lineno < first_if.lineno
@@ -199,7 +221,7 @@ def check(ctx: Ctx) -> None:
             kw = {k.arg: k.value for k in c.keywords}
             mt = enum_member(kw.get("message_type"), "MessageType")
             if mt == "NOTE_ON":
-                ctx.check(nzd.norm(kw.get("time")).canon() == "cur_time" and nzd.norm(kw.get("note")).canon() == "FIELD(1)", "PITCH",
+                ctx.check(nzd.norm(kw.get("time")).canon() == ctx.extra["clock_roles"]["detokenise"]["cur_time"] and nzd.norm(kw.get("note")).canon() == "FIELD(1)", "PITCH",
                           "detokenise: note-on placed at the current clock with the token's pitch", function=fd.qualname,
                           construct="detokenise does not place the note-on at cur_time with the PITCH field",
                           message=f"time={short(kw.get('time'))} note={short(kw.get('note'))}", file=fd.file, node=c)
